@@ -430,6 +430,10 @@ def _array_loads(g, which):
         return _axis(g, True)
     if which == "grid":
         return _grid(g)
+    if which == "axis-mesh-sized":
+        # the axis repeated up to >= 20000 elements (implementations may switch to other code above some size)
+        ax = _axis(g, False)
+        return ax * (-(-20000 // len(ax)))
     L = float(which.split(":")[1])
     return [L, -L]
 
@@ -548,6 +552,8 @@ def probes_of(g):
             yield {"p": "array", "container": c, "which": which}
     yield {"p": "array", "container": "ndarray", "which": "grid"}
     yield {"p": "array", "container": "Series", "which": "grid"}
+    if g.get("via", "fresh") == "fresh" and g["T"] == g.get("T0", g["T"]):
+        yield {"p": "array", "container": "ndarray", "which": "axis-mesh-sized"}
 
 
 def run_probe(law, g, R, probe, acc, cache=None):
@@ -618,7 +624,7 @@ def run_shard(shard):
         return acc
     for T in shard["tolerances"]:
         for branch, via in [(b, v) for b in BRANCHES for v in ("fresh", "set-K", "set-Kp", "after-raise", "sibling-set-K")]:
-            g = {"law": shard["law"], "mat": shard["mat"], "K_p": shard["K_p"], "factors": shard["factors"], "T": T, "branch": branch, "via": via}
+            g = {"law": shard["law"], "mat": shard["mat"], "K_p": shard["K_p"], "factors": shard["factors"], "T": T, "T0": shard["tolerances"][0], "branch": branch, "via": via}
             law = _law(g)
             R = Ref(g)
             cache = {}
